@@ -1020,7 +1020,9 @@ def judge_explored(run: Run, results: list[dict], count: bool = True) -> list[Di
                     st.count('explore:code:' + out[4:])
             if name == 'evaluate':
                 first_eval = out
-            if name == 'evaluate-again' and first_eval is not None and out != first_eval:
+            esc_pair = (first_eval or '').startswith(('ERR:OTHER', 'ERR:NOCODE')) or out.startswith(('ERR:OTHER', 'ERR:NOCODE'))
+            if name == 'evaluate-again' and first_eval is not None and out != first_eval and not esc_pair:
+                # (a pair involving an escape is reported as that escape, below)
                 pending.append((dict(case, step='evaluate-twice'), 'second:' + out, 'first:' + first_eval))
             if cls not in ('value', 'coded-error') and (out, site) not in seen:
                 seen.add((out, site))
